@@ -360,6 +360,68 @@ theorem cleanup_stale_edges_exact (g : WaitGraph) (now ttl : Nat) (hT : Transpos
 theorem clear_leaves_nothing (g : WaitGraph) (tx : Nat) : Absent (clearGraph g) tx := by
   simp [Absent, clearGraph, WaitGraph.empty, aGet, outs, ins]
 
+/-- **A refused prepare waits for exactly its blockers**: on the coordinator's graph (no per-transaction
+    edge limit) a prepare that is refused adds a wait-for edge from the transaction to every live
+    foreign holder of a requested key, and no other edge — the recorded wait-for relation is the
+    lock-conflict relation of that moment. -/
+theorem refused_prepare_waits_for_every_blocker (t : LockTable) (g : WaitGraph) (now wnow tx : Nat)
+    (keys : List Nat) (prio : Option Nat) (hmx : g.maxEdgesPerTx = 0)
+    (href : ∀ h, (tryLockWait t g now wnow tx keys prio).2.2 ≠ .ok h) (a b : Nat) :
+    b ∈ outs (tryLockWait t g now wnow tx keys prio).2.1 a ↔
+      b ∈ outs g a ∨ (a = tx ∧ ∃ k ∈ keys, ∃ l, aGet t.locks k = some l ∧ l.isExpired now = false ∧
+        l.tx ≠ tx ∧ l.tx = b) := by
+  have hne : (conflicts t.locks now tx keys).isEmpty = false := by
+    cases he : (conflicts t.locks now tx keys).isEmpty with
+    | false => rfl
+    | true =>
+      exfalso
+      have hc : firstConflict t.locks now tx keys = none := by
+        rw [← conflicts_nil_iff]; exact List.isEmpty_iff.mp he
+      obtain ⟨h, hh⟩ := (tryLockWait_granted_iff t g now wnow tx keys prio).mpr hc
+      exact href h hh
+  unfold tryLockWait
+  simp only [hne, Bool.false_eq_true, ↓reduceIte]
+  rw [mem_outs_foldl_addWait _ g wnow tx prio hmx, mem_foldl_setInsert_snd]
+  simp only [List.not_mem_nil, false_or, mem_conflicts]
+  constructor
+  · rintro (h | ⟨h1, ⟨k, hk, l, h2, h3, h4, h5⟩, _⟩)
+    · exact Or.inl h
+    · exact Or.inr ⟨h1, k, hk, l, h2, h3, h4, h5⟩
+  · rintro (h | ⟨h1, k, hk, l, h2, h3, h4, h5⟩)
+    · exact Or.inl h
+    · exact Or.inr ⟨h1, ⟨k, hk, l, h2, h3, h4, h5⟩, fun e => h4 (by rw [h5, e])⟩
+
+/-- …and this is the situation of every reachable coordinator state: its graph has no edge limit,
+    so after any operation sequence a refused `handle_prepare` leaves the transaction waiting for
+    every live foreign holder of the keys it asked for. -/
+theorem coordinator_refused_prepare_waits_for_every_blocker (T mc : Nat) (ops : List CoOp) (tx : Nat)
+    (keys : List Nat) (k : Nat) (l : KeyLock)
+    (href : ∀ h, (costep (corun ops (Coord.init T mc)) (.prepare tx keys)).2 ≠ .yes h)
+    (hk : k ∈ keys) (hl : aGet (corun ops (Coord.init T mc)).t.locks k = some l)
+    (hlive : l.isExpired (corun ops (Coord.init T mc)).now = false) (hother : l.tx ≠ tx) :
+    l.tx ∈ outs (costep (corun ops (Coord.init T mc)) (.prepare tx keys)).1.g tx := by
+  have hmx := corun_mx T mc ops
+  generalize corun ops (Coord.init T mc) = c at hmx href hl hlive ⊢
+  have href2 : ∀ h, (tryLockWait c.t c.g c.now c.now tx keys none).2.2 ≠ .ok h := by
+    intro h hh
+    apply href h
+    simp only [costep]
+    cases hr : tryLockWait c.t c.g c.now c.now tx keys none with
+    | mk t' r =>
+      obtain ⟨g', res⟩ := r
+      rw [hr] at hh
+      simp only at hh
+      subst hh
+      rfl
+  have hg : (costep c (.prepare tx keys)).1.g = (tryLockWait c.t c.g c.now c.now tx keys none).2.1 := by
+    simp only [costep]
+    cases hr : tryLockWait c.t c.g c.now c.now tx keys none with
+    | mk t' r =>
+      obtain ⟨g', res⟩ := r
+      cases res <;> rfl
+  rw [hg, refused_prepare_waits_for_every_blocker c.t c.g c.now c.now tx keys none hmx href2]
+  exact Or.inr ⟨rfl, k, hk, l, hl, hlive, hother, rfl⟩
+
 /-! non-vacuity -/
 
 def demo : List CoOp :=
